@@ -1,6 +1,6 @@
 (** Property C11 — the theorems the check counts as obligations.  Nothing but
     statements closed by [exact] and [Print Assumptions]. *)
-From HS Require Import Base.Prelude C11.Model C11.NodeProofs C11.Election C11.Refute C11.LogProofs.
+From HS Require Import Base.Prelude C11.Model C11.NodeProofs C11.Election C11.Refute C11.LogProofs C11.Progress.
 Local Open Scope Z_scope.
 
 (** Each node applies indices 1,2,3,... in order without gaps or repeats, for
@@ -80,3 +80,42 @@ Theorem c11_leader_append_only_partial : forall n inp,
   exists suffix, log (fst (node_step n inp)) = log n ++ suffix.
 Proof. exact leader_append_only. Qed.
 Print Assumptions c11_leader_append_only_partial.
+
+(** The repaired [_step_down]: for ANY input a node's term never decreases and
+    its vote is kept while the term is unchanged. *)
+Theorem c11_term_monotone_vote_stable : forall n inp,
+  term n <= term (fst (node_step n inp)) /\
+  (term (fst (node_step n inp)) = term n -> forall c, voted n = Some c -> voted (fst (node_step n inp)) = Some c).
+Proof. exact term_monotone_vote_stable. Qed.
+Print Assumptions c11_term_monotone_vote_stable.
+
+(** Every leader there has ever been held the votes, cast in its term, of a
+    duplicate-free set of more than half of the nodes. *)
+Theorem c11_leader_has_quorum_of_votes : forall l acts, NoDup l ->
+  let w := net_run (net_init l) acts in
+  forall t a, In (t, a) (led w) ->
+  exists vs, NoDup vs /\ zlen l / 2 + 1 <= zlen vs /\ forall v, In v vs -> In (v, t, a) (cast w).
+Proof. exact leader_has_quorum_of_votes. Qed.
+Print Assumptions c11_leader_has_quorum_of_votes.
+
+(** Liveness clause, the part that is proved (PARTIAL): one delivered
+    AppendEntries brings a follower that holds the leader's log up to
+    next_index-1 completely up to date; it recognises the leader and answers
+    success with match_index = the leader's last index. *)
+Theorem c11_replication_round_partial : forall n f (p : nat),
+  Z.of_nat p = aget (nid f) 1 (next_index n) - 1 ->
+  (p <= length (log n))%nat ->
+  log f = firstn p (log n) ->
+  term f <= term n ->
+  zmem (nid n) (peers f) = true ->
+  match append_entries_for n (nid f) with
+  | OSend d m =>
+      d = nid f /\
+      let r := node_step f (IMsg (nid n) m) in
+      log (fst r) = log n /\
+      term (fst r) = term n /\ role (fst r) = Follower /\ leader (fst r) = Some (nid n) /\
+      In (OSend (nid n) (AppendResponse (term n) true (nid f) (last_index (log n)))) (snd r)
+  | _ => False
+  end.
+Proof. exact replication_round. Qed.
+Print Assumptions c11_replication_round_partial.
